@@ -1,7 +1,7 @@
 import MesaModel.Model.LegacyTruth
 import MesaModel.Proofs.LegacyCompose
 /-! Agents with a truth value (C09, round 4, mutation C09-3): histories in which agents are made falsy / truthy between mutating
-calls and cached `get_neighbors` queries.  The queries never consult the truth value; `grid.agents` does. -/
+calls and cached `get_neighbors` queries.  The readers take the emptiness test the generated table names (Model/LegacyTruth.lean). -/
 namespace Mesa.Legacy
 
 open Grid
@@ -18,30 +18,19 @@ def eraseTruth : List TQ → List GQ
   | .q x :: rest => x :: eraseTruth rest
   | .truth _ _ :: rest => eraseTruth rest
 
-/-- the answers of the `get_neighbors` calls, as the driver computes them: grid, cache and the set of falsy agents are carried along -/
+/-- the answers of the `get_neighbors` calls, as the driver computes them: grid, cache and the set of falsy agents are carried along;
+    the contents are read with the emptiness test of the code (`cellsContentsT`: it is handed the falsy set) -/
 def runT : Grid → NCache → Falsy → List TQ → List (Except Err (List Aid))
   | _, _, _, [] => []
   | g, c, fz, .truth a b :: rest => runT g c (setTruth fz a b) rest
   | g, c, fz, .q (.op o) :: rest => runT (step g o).1 c fz rest
-  | g, c, fz, .q (.nbrs k) :: rest => ((getNbhd g.dim c k).2.map (cellsContents g)) :: runT g (getNbhd g.dim c k).1 fz rest
+  | g, c, fz, .q (.nbrs k) :: rest => ((getNbhd g.dim c k).2.map (cellsContentsT fz g)) :: runT g (getNbhd g.dim c k).1 fz rest
 
 /-- the set of falsy agents at the end of a history -/
 def falsyAfter : Falsy → List TQ → Falsy
   | fz, [] => fz
   | fz, .truth a b :: rest => falsyAfter (setTruth fz a b) rest
   | fz, .q _ :: rest => falsyAfter fz rest
-
-theorem runT_eq_runQ (hist : List TQ) : ∀ (g : Grid) (c : NCache) (fz : Falsy), runT g c fz hist = runQ g c (eraseTruth hist) := by
-  induction hist with
-  | nil => intro g c fz; rfl
-  | cons x rest ih =>
-    intro g c fz
-    cases x with
-    | truth a b => simp only [runT, eraseTruth]; exact ih g c _
-    | q y =>
-      cases y with
-      | op o => simp only [runT, eraseTruth, runQ]; exact ih _ c fz
-      | nbrs k => simp only [runT, eraseTruth, runQ]; rw [ih]
 
 theorem mem_setTruth (fz : Falsy) (a : Aid) (b : Bool) (x : Aid) :
     x ∈ setTruth fz a b ↔ (x = a ∧ b = false) ∨ (x ≠ a ∧ x ∈ fz) := by
@@ -70,42 +59,81 @@ theorem mem_setTruth (fz : Falsy) (a : Aid) (b : Bool) (x : Aid) :
         · exact Or.inl h
         · exact Or.inr h.2
 
-/-- with no falsy agent `grid.agents` is the plain flattening -/
-theorem agentsListT_nil (g : Grid) : g.agentsListT [] = g.agentsList := by
-  unfold Grid.agentsListT Grid.agentsList
-  split
-  · rfl
-  · congr 1
-    apply List.filter_eq_self.mpr
-    intro a _; rfl
+/-! ### the emptiness test of the readers -/
 
-/-- on a single-occupancy grid `grid.agents` never lists a falsy agent -/
-theorem agentsListT_drops_falsy (g : Grid) (hm : g.multi = false) (fz : Falsy) (a : Aid) (ha : a ∈ fz) :
-    a ∉ g.agentsListT fz := by
-  unfold Grid.agentsListT
-  rw [hm]
-  simp only [Bool.false_eq_true, if_false]
-  intro hmem
-  have hsub : ∀ (l acc : List Aid) (x : Aid),
-      x ∈ l.foldl (fun acc x => if x ∈ acc then acc else acc ++ [x]) acc → x ∈ acc ∨ x ∈ l := by
-    intro l
-    induction l with
-    | nil => intro acc x h; exact Or.inl h
-    | cons y ys ih =>
-      intro acc x h
-      simp only [List.foldl_cons] at h
-      rcases ih _ x h with h1 | h1
-      · by_cases hy : y ∈ acc
-        · rw [if_pos hy] at h1; exact Or.inl h1
-        · rw [if_neg hy] at h1
-          rcases List.mem_append.mp h1 with h2 | h2
-          · exact Or.inl h2
-          · right; rw [List.mem_singleton.mp h2]; exact List.mem_cons_self
-      · exact Or.inr (List.mem_cons_of_mem _ h1)
-  rcases hsub _ [] a hmem with h | h
-  · cases h
-  · have := (List.mem_filter.mp h).2
-    simp only [Bool.not_eq_true', List.contains_eq_mem, decide_eq_false_iff_not] at this
-    exact this ha
+/-- the `!= default_val()` instance of the parametrised reader is `cellsContents` -/
+theorem cellsContentsBy_eqDefault (fz : Falsy) (g : Grid) (cells : List Coord) :
+    cellsContentsBy .eqDefault fz g cells = cellsContents g cells := by
+  unfold cellsContentsBy cellsContents
+  cases g.multi
+  · simp only [Bool.false_eq_true, if_false, cellEmptyBy]
+    congr 1
+    funext c
+    cases g.content c <;> simp
+  · simp only [if_true, cellEmptyBy, Grid.isCellEmpty]
+
+/-- on a MultiGrid the stored value is the cell's list: both tests agree -/
+theorem cellsContentsBy_truthy_multi (fz : Falsy) (g : Grid) (hm : g.multi = true) (cells : List Coord) :
+    cellsContentsBy .truthy fz g cells = cellsContents g cells := by
+  unfold cellsContentsBy cellsContents
+  simp only [hm, if_true, cellEmptyBy, Grid.isCellEmpty]
+
+/-- on a single-occupancy grid the truthiness test returns the occupants that are not falsy -/
+theorem mem_cellsContentsBy_truthy_single (fz : Falsy) (g : Grid) (hm : g.multi = false) (cells : List Coord) (a : Aid) :
+    a ∈ cellsContentsBy .truthy fz g cells ↔ a ∈ cellsContents g cells ∧ a ∉ fz := by
+  unfold cellsContentsBy cellsContents
+  simp only [hm, Bool.false_eq_true, if_false, cellEmptyBy, List.mem_filterMap]
+  constructor
+  · rintro ⟨c, hc, h⟩
+    cases hh : (g.content c).head? with
+    | none => rw [hh] at h; simp at h
+    | some b =>
+      rw [hh] at h
+      by_cases hb : b ∈ fz
+      · simp [hb] at h
+      · simp [hb] at h
+        subst h
+        exact ⟨⟨c, hc, hh⟩, hb⟩
+  · rintro ⟨⟨c, hc, h⟩, hn⟩
+    refine ⟨c, hc, ?_⟩
+    rw [h]
+    simp [hn]
+
+/-- the `is None` instance of `grid.agents` is the plain flattening -/
+theorem agentsBy_eqDefault (fz : Falsy) (g : Grid) : g.agentsBy .eqDefault fz = g.agentsList := by
+  unfold Grid.agentsBy Grid.agentsList
+  simp only [cellEmptyBy]
+  rw [flatMap_filter_nonempty]
+
+/-- the tests the code uses (generated from mesa/space.py): comparison with the empty value, in both places -/
+theorem contentsTest_eq : contentsTest = .eqDefault := by decide
+theorem agentsTest_eq : agentsTest = .eqDefault := by decide
+
+theorem cellsContentsT_eq (fz : Falsy) (g : Grid) (cells : List Coord) : cellsContentsT fz g cells = cellsContents g cells := by
+  unfold cellsContentsT; rw [contentsTest_eq]; exact cellsContentsBy_eqDefault fz g cells
+
+theorem hexNeighborsT_eq (fz : Falsy) (g : Grid) (cells : List Coord) : hexNeighborsT fz g cells = hexNeighbors g cells := by
+  unfold hexNeighborsT hexNeighbors
+  cases g.rawCells cells with
+  | error e => rfl
+  | ok cs => simp only [cellsContentsT_eq]
+
+theorem agentsListT_eq (g : Grid) (fz : Falsy) : g.agentsListT fz = g.agentsList := by
+  unfold Grid.agentsListT; rw [agentsTest_eq]; exact agentsBy_eqDefault fz g
+
+theorem runT_eq_runQ (hist : List TQ) : ∀ (g : Grid) (c : NCache) (fz : Falsy), runT g c fz hist = runQ g c (eraseTruth hist) := by
+  induction hist with
+  | nil => intro g c fz; rfl
+  | cons x rest ih =>
+    intro g c fz
+    cases x with
+    | truth a b => simp only [runT, eraseTruth]; exact ih g c _
+    | q y =>
+      cases y with
+      | op o => simp only [runT, eraseTruth, runQ]; exact ih _ c fz
+      | nbrs k =>
+        simp only [runT, eraseTruth, runQ]; rw [ih]
+        have : cellsContentsT fz g = cellsContents g := funext (cellsContentsT_eq fz g)
+        rw [this]
 
 end Mesa.Legacy
